@@ -108,7 +108,7 @@ var OpsByKind = map[string][]string{
 	"counter": {"cinc"},
 	"tree":    {"trtext", "trins", "trdel", "trstyle"},
 	"undo":    {"undo", "redo"},
-	"pres":    {"pset", "pclear"},
+	"pres":    {"pset", "pclear", "pmix"},
 }
 
 // Ops flattens the op names of the given kinds.
